@@ -381,6 +381,9 @@ def unsat(lits):
             m = ("mod", a[1], a[2])
             if m not in atoms:
                 atoms.add(m)
+        elif a[0] == "mod" and a[2] > 4:
+            # t = m*(t div m) + (t mod m): lets "t - t mod m != 0" conclude "t >= m"
+            atoms.add(("div", a[1], a[2]))
     ax = atom_axioms(atoms, atoms)
     for l in ax:
         if l[0] == "le":
